@@ -233,13 +233,18 @@ func consumers(line int, mode, variant string, segs [][]byte, limits string, sta
 			vwalk.Walk(root, 8)
 		}
 	})
-	if mode == "exact" {
+	if mode == "exact" || mode == "slack-a" {
 		guarded(line, mode, tag, "escape", segs, stats, func() {
 			m, root, ok := mk()
 			if !ok {
 				return
 			}
-			own := m.Arena.(*vwalk.ExactArena).Segs
+			var own [][]byte
+			if ea, isExact := m.Arena.(*vwalk.ExactArena); isExact {
+				own = ea.Segs
+			} else {
+				own = m.Arena.(*vwalk.SlackArena).Segs
+			}
 			budget := 2000
 			if r := checkEscapes(root, own, 8, &budget); r != "" {
 				emit(consumerFault{Line: line, Mode: mode, Variant: tag, Consumer: "escape", Kind: "escape", Detail: r, SegsJ: segsJSON(segs)})
@@ -342,7 +347,7 @@ func cloneAll(segs [][]byte) [][]byte {
 
 var c01rng *rand.Rand
 var c01mut = 2
-var c01modes = []string{"exact", "unmarshal"}
+var c01modes = []string{"exact", "unmarshal", "slack-a"}
 
 func init() {
 	seed, _ := strconv.ParseInt(os.Getenv("VERIF_SEED"), 10, 64)
